@@ -25,11 +25,12 @@ def run(ctx):
     F = ctx.facts()
     R = ctx.report
     R.assume("regex semantics; the parser delivers the tokens the expression denotes")
-    R.undecided("`Token::literals` / `components` (iterator pipelines over the concatenation: batching, peeking_take_while) "
-                "are not tabulated; that a built glob is never `sometimes` rooted is C06's clause")
+    R.undecided("`Token::literals` / `components` beyond the shapes of the dot catalogue (C12.dots); that a built glob is never "
+                "`sometimes` rooted is C06's clause")
     rule_rooting(F, R)
     rule_starting(F, R, "C12.rooting")
     rule_semantic(F, R)
+    rule_dots(F, R, ctx.tier)
     from . import encoder
     encoder.rule_begin(F, R)
     from . import exhaust
@@ -154,3 +155,203 @@ def rule_semantic(F, R):
         res = strip(tabulate.single(I2.explore(lambda: I2.call_item(g, [Ref(Place(Cell(me)))]))))
         R.check(res is want, "C12.semantic", "has_semantic_literals%r" % (flags,), str(want), g.where(),
                 fail_msg="with literal sequences flagged %r Glob::has_semantic_literals = %r, expected %s" % (flags, res, want))
+
+
+# ---- C12.dots: `.` / `..` components anywhere in a buildable expression are reported ---------------------------------
+
+def _dot_pieces():
+    """Sub-expressions (token recipes) for branch bodies: 'a', '..', '.', '*' are atoms, '/' a separator, '**' a tree
+    wildcard (which stands for the separators around it, as the parser builds it)."""
+    return [["a"], [".."], ["."], ["*"], ["a", "/", ".."], ["..", "/", "a"], ["a", "**", ".."], ["**", ".."], ["..", "**"],
+            ["a", "."], [".", "*"], ["a", "/", ".", "/", "a"], ["a", "**", ".", "/", "*"]]
+
+
+def _dot_catalogue(tier):
+    """(text, recipe) pairs; a recipe is a nested list: atoms as above, ("alt", [recipes]), ("rep", recipe, lower, upper)."""
+    S = _dot_pieces()
+    plain = [["a"], [".."], ["."], ["*"], [".", "."], ["a", "."]]
+    branches = []
+    for i, s1 in enumerate(S):
+        for s2 in S[:4] if tier != "thorough" else S:
+            if s1 != s2:
+                branches.append([("alt", [s1, s2])])
+    for s in S:
+        branches.append([("rep", s, 1, None)])
+        branches.append([("rep", s + ["/"], 1, None)])
+        branches.append([("rep", s + ["/"], 2, 3)])
+        branches.append([("rep", ["/"] + s, 1, None)])
+        branches.append([("rep", [("alt", [s, ["a"]])], 1, 2)])           # an alternation inside a repetition
+        branches.append([("alt", [[("rep", s + ["/"], 1, None), "a"], ["a"]])])   # a repetition inside an alternation
+        branches.append([("alt", [[("alt", [s, ["a"]])], ["*"]])])          # an alternation inside an alternation
+    comps = plain + branches
+    out = []
+    seen = set()
+
+    def emit(seq):
+        key = repr(seq)
+        if key not in seen:
+            seen.add(key)
+            out.append(seq)
+    joiners = ["/", "**"]
+    leads = [[], ["/"], ["**"]]
+    trails = [[], ["/"], ["**"]]
+    for c in comps:
+        for l in leads:
+            for t in trails:
+                emit(l + c + t)
+    small = plain[:4]
+    for c in comps:
+        for p in small:
+            for j in joiners:
+                for l in leads:
+                    for t in (trails if (tier == "thorough" or c in plain) else [[]]):
+                        emit(l + c + [j] + p + t)
+                        emit(l + p + [j] + c + t)
+    if True:
+        for c in (comps if tier == "thorough" else plain + branches[::7]):
+            for p, q in itertools.product(small[:3], repeat=2):
+                for j1, j2 in itertools.product(joiners, repeat=2):
+                    emit(p + [j1] + c + [j2] + q)
+    return out
+
+
+def _dot_text(recipe):
+    out = ""
+    for x in recipe:
+        if isinstance(x, tuple) and x[0] == "alt":
+            out += "{" + ",".join(_dot_text(b) for b in x[1]) + "}"
+        elif isinstance(x, tuple) and x[0] == "rep":
+            out += "<" + _dot_text(x[1]) + ":%d,%s>" % (x[2], "" if x[3] is None else x[3])
+        elif x == "**":
+            out += "/**/"
+        else:
+            out += x
+    return out
+
+
+def _dot_tokens(recipe, top=True):
+    from . import exhaust
+    toks = []
+    for i, x in enumerate(recipe):
+        if isinstance(x, tuple) and x[0] == "alt":
+            toks.append(T.branch("alt", [T.branch("cat", _dot_tokens(b, False)) for b in x[1]]))
+        elif isinstance(x, tuple) and x[0] == "rep":
+            toks.append(T.branch("rep", [T.branch("cat", _dot_tokens(x[1], False))], "r", x[2], x[3]))
+        elif x == "/":
+            toks.append(T.leaf("sep", "s"))
+        elif x == "**":
+            toks.append(T.leaf("tree-rooted" if (top and i == 0 and False) else "tree", "t"))
+        elif x == "*":
+            toks.append(T.leaf("zom", "z"))
+        else:
+            toks.append(exhaust.lit(x))
+    return toks
+
+
+def _dot_reference(recipe, lb=True, rb=True):
+    """True when some component of the expression that is delimited by separators, tree wildcards or the ends of the
+    expression on both sides (through the branch tokens it is nested in) is spelled only with literals whose text is
+    `.` or `..`.  An under-approximation of the property's clause (components glued to other tokens are left out), so a
+    `True` here must be reported."""
+    n = len(recipe)
+    i = 0
+    while i < n:
+        if recipe[i] in ("/", "**"):
+            i += 1
+            continue
+        s = i
+        while i < n and recipe[i] not in ("/", "**"):
+            i += 1
+        e = i - 1
+        run = recipe[s:e + 1]
+        left = lb if s == 0 else True
+        right = rb if e == n - 1 else True
+        if all(isinstance(x, str) for x in run):
+            if "".join(run) in (".", "..") and left and right:
+                return True
+            continue
+        for j, x in enumerate(run):
+            if not isinstance(x, tuple):
+                continue
+            cl = left if j == 0 else False
+            cr = right if j == len(run) - 1 else False
+            if x[0] == "alt":
+                if any(_dot_reference(b, cl, cr) for b in x[1]):
+                    return True
+            else:
+                body = x[1]
+                # the first copy is delimited on the left by the context, the last on the right; one copy is both when
+                # a single repetition is allowed, otherwise the neighbouring copy must supply the delimiter
+                single = x[2] <= 1
+                bl = cl and (single or (body and body[-1] in ("/", "**")))
+                br = cr and (single or (body and body[0] in ("/", "**")))
+                if _dot_reference(body, bool(bl), bool(br)):
+                    return True
+    return False
+
+
+def _dot_job(args):
+    J, lits, sem, recipe = _DOT_STATE["J"], _DOT_STATE["lits"], _DOT_STATE["sem"], args
+    from . import exhaust
+    F = J.F
+    tree = J.tree(_dot_tokens(recipe))
+    try:
+        acc = J.accepted(tree)
+    except Exception as ex:          # noqa
+        acc = None
+    if acc is not True:
+        return (_dot_text(recipe), "rejected" if acc is False else "undecided", None, None)
+    I = Interp(F)
+
+    def run():
+        its = I.call_item(lits, [Ref(Place(Cell(tree)))], inst=False)
+        out = []
+        for pair in models.drain(I, models.iter_of(I, its)):
+            pair = strip(pair)
+            out.append(strip(I.call_item(sem, [Ref(Place(Cell(pair.items[1])))])))
+        return RList(out)
+    cases = I.explore(run)
+    got = None
+    if len(cases) == 1 and not I.tops and isinstance(strip(cases[0].result), RList) \
+            and all(isinstance(strip(x), bool) for x in strip(cases[0].result).items):
+        got = any(strip(x) for x in strip(cases[0].result).items)
+    return (_dot_text(recipe), "accepted", got, _dot_reference(recipe))
+
+
+_DOT_STATE = {}
+
+
+def rule_dots(F, R, tier):
+    """C12.dots: on a catalogue of buildable expressions with `.` / `..` at every position (first, middle, last; next to
+    a separator, a tree wildcard or an end; in an alternation, a repetition, two levels deep), `Token::literals` followed
+    by `is_semantic_literal` (= what Glob::has_semantic_literals folds with `any`, C12.semantic) reports a semantic
+    literal whenever the reference finds a delimited component spelled `.` or `..`."""
+    import multiprocessing, os
+    from . import exhaust
+    lits = F.find("token::Token::literals")
+    sem = F.find("token::LiteralSequence::is_semantic_literal")
+    _DOT_STATE.update(J=exhaust.Judge(F), lits=lits, sem=sem)
+    cat = _dot_catalogue(tier)
+    jobs = min(16, os.cpu_count() or 1)
+    ctx = multiprocessing.get_context("fork")
+    with ctx.Pool(jobs) as pool:
+        results = pool.map(_dot_job, cat, chunksize=16)
+    n = pos = 0
+    for text, status, got, want in results:
+        if status != "accepted":
+            continue
+        n += 1
+        if want:
+            pos += 1
+        if got is None:
+            R.check(False, "C12.dots", text, "the literal components of the expression are decidable", lits.where(),
+                    fail_msg="Token::literals could not be evaluated on `%s` (fail closed)" % text)
+        elif want:
+            R.check(got is True, "C12.dots", text, "a component spelled `.` or `..` is reported", lits.where(),
+                    fail_msg="`%s` has a component spelled entirely as `.` or `..` (delimited by separators, tree wildcards or the "
+                             "ends of the expression), yet no literal sequence yielded by Token::literals is a semantic literal: "
+                             "Glob::has_semantic_literals answers false" % text)
+        else:
+            R.check(True, "C12.dots", text, "no delimited dot component (nothing demanded)", lits.where())
+    R.floor("C12.dots", "buildable expressions examined", n, 6000 if tier != "thorough" else 30000)
+    R.floor("C12.dots", "expressions with a delimited `.` / `..` component", pos, 5000 if tier != "thorough" else 27000)
